@@ -59,7 +59,7 @@ def generate(seed, tier):
                 ops.append({'op': 'buffer_dup', 'n': rng.randrange(1000)})
         left -= k
         if faulty and rng.random() < 0.3:
-            ops.append({'op': 'fail_next_flush', 'at': rng.randrange(6)})
+            ops.append({'op': 'fail_next_flush', 'at': rng.randrange(6), 'once': rng.random() < 0.5})
         if not faulty and rng.random() < 0.15:
             ops.append({'op': 'race_buffer_during_flush', 'pick': rng.randrange(1000)})
         if not faulty and rng.random() < 0.12:
@@ -89,7 +89,8 @@ class _FailingCursor:
 
     def _tick(self):
         self._s['n'] += 1
-        if self._s['n'] > self._s['at']:
+        if self._s['n'] > self._s['at'] and not (self._s.get('once') and self._s['fired']):
+            # persistent (disk full: every further statement fails too) or transient (one statement fails, the next ones work)
             self._s['fired'] = True
             raise sqlite3.OperationalError('database or disk is full')
 
@@ -141,9 +142,9 @@ class _SeamLock:
 class _FailingConnection:
     """Stands in for the sqlite3 connection during one flush: the k-th statement raises 'disk full'."""
 
-    def __init__(self, conn, at):
+    def __init__(self, conn, at, once=False):
         self._conn = conn
-        self.state = {'n': 0, 'at': at, 'fired': False}
+        self.state = {'n': 0, 'at': at, 'fired': False, 'once': once}
 
     def cursor(self):
         return _FailingCursor(self._conn.cursor(), self.state)
@@ -187,6 +188,7 @@ def execute(script):
         raw[b] = objs[b].serialize()
     wedged = False
     fail_at = None
+    fail_once = False
     had_fault = False
     pre_fault, fault_batch = [], []
 
@@ -395,12 +397,15 @@ def execute(script):
                     res.bump('probe:other_thread_entered_during_flush')
             elif kind == 'fail_next_flush':
                 fail_at = op.get('at', 0)
+                fail_once = bool(op.get('once'))
             elif kind == 'flush':
                 inject = fail_at is not None and buffered
                 real = store.connection
                 fc = None
                 if inject:
-                    fc = _FailingConnection(real, fail_at)
+                    fc = _FailingConnection(real, fail_at, fail_once)
+                    if fail_once:
+                        res.bump('fault:flush_failed_one_statement')
                     store.connection = fc
                     fail_at = None
                 flush_err = None
